@@ -43,7 +43,7 @@ Lemma ap1_gather (m : pmode) (d : direction) (A B C : list T) IL IR :
         else A ++ add_at IR C (add_at IL A B) ++ C).
 Proof.
   intros a b c Hm Hpos Hl Hr Eil Eir HL HR FL FR.
-  unfold apply_padding1. rewrite zlen3. fold a b c.
+  unfold apply_padding1. change size_guard_before_skip with false; cbn [andb]. rewrite zlen3. fold a b c.
   unfold padding_skipped. destruct (Z.leb_spec (a + b + c) b) as [Hle|_]; [lia|].
   unfold n_pad_l, n_pad_r. cbv zeta.
   replace (a + b + c - b - a)%Z with c by lia.
